@@ -15,6 +15,8 @@ func TestC20(t *testing.T) {
 		r := e.r
 		maxN := e.cfg.Pick(2500, 12000) // container sizes; documents reach ~30 KB quick / ~150-400 KB thorough
 		maxUse := 0.0
+		var maxTiny uint64
+		maxPerByte := 0.0
 		readFns := []string{"ReadValue", "ReadObject", "ReadArray", "pkg.ReadValue", "pkg.ReadObject", "pkg.ReadArray"}
 		bufFns := []string{"Valid", "SkipValue", "SkipValueFast", "HandleArrayValues", "HandleObjectValues"}
 		// runHistory executes a history and records it
@@ -44,6 +46,12 @@ func TestC20(t *testing.T) {
 			r.Label("history." + kind)
 			if run.maxUse > maxUse {
 				maxUse = run.maxUse
+			}
+			if run.maxTinyCall > maxTiny {
+				maxTiny = run.maxTinyCall
+			}
+			if run.maxBigPerByte > maxPerByte {
+				maxPerByte = run.maxBigPerByte
 			}
 			if nt && r.WantSample(key) {
 				var desc []string
@@ -94,6 +102,36 @@ func TestC20(t *testing.T) {
 				failRapid(rt, r, caseOf("C20", "shape", nil, err), err)
 			}
 		})
+		// 1b. cross-entry-point grid: a big document through one entry point, then many small
+		// ones through another, on the same reader and buffer (size hints that outlive the call
+		// they were learned in, in every pairing of entry points)
+		if e.enumStage("entry-point-grid", "16 big-then-small variants (n=3000, m in {1,2}) x 11 functions for the big document x 11 functions for 16 small documents repeated 300 times", true) {
+			fns := append(append([]string{}, readFns...), bufFns...)
+			idx := 0
+		grid:
+			for v := int64(0); v < 16; v++ { // v&8 = big container last; m = 1 for v < 8 (the big object is the LAST sibling's predecessor)
+				for _, bigFn := range fns {
+					for _, smallFn := range fns {
+						idx++
+						if !e.cfg.Mine(idx) {
+							continue
+						}
+						isReader := func(f string) bool { return f == "ReadValue" || f == "ReadObject" || f == "ReadArray" }
+						if !(isReader(bigFn) && isReader(smallFn)) && (idx%9 != 0) {
+							continue // pairings that cannot share state are sampled, not enumerated
+						}
+						steps := []core.Case{{Kind: bigFn, Strs: []string{"big-then-small"}, Ints: []int64{1, 0, 3000, 1 + v/8%2, v}}}
+						for which := int64(0); which < 16; which++ {
+							steps = append(steps, core.Case{Kind: smallFn, Strs: []string{"small"}, Ints: []int64{300, which % 2, which}})
+						}
+						if err := runHistory("grid", steps, true); err != nil {
+							r.Fail(caseOf("C20", "grid", nil, err), err)
+							break grid
+						}
+					}
+				}
+			}
+		}
 		// 2. histories on one reader / one buffer: a large document, then many small ones that
 		// succeed, are malformed, have the wrong type or are null; GC actions in between
 		e.rapidStage("histories", "stateful", e.cfg.N(900, 30000), func(rt *rapid.T) {
@@ -152,6 +190,8 @@ func TestC20(t *testing.T) {
 			}
 		})
 		r.Extra("max_bound_utilisation", maxUse)
+		r.Extra("max_alloc_of_a_later_call_on_a_tiny_input_bytes", maxTiny)
+		r.Extra("max_alloc_per_input_byte_on_inputs_over_4KiB", maxPerByte)
 		r.Extra("bound", fmt.Sprintf("sum(alloc) <= sum(len*(%d + %d*D)) + %d*calls over every prefix of a history", c20K, c20Kd, c20C))
 	})
 }
